@@ -13,7 +13,7 @@ warnings.simplefilter('ignore')
 import sys
 import os
 sys.path.insert(0, os.path.dirname(os.path.abspath(__file__)))
-from common import Recorder, args, replay_main
+from common import Recorder, args, replay_main, run_parallel
 
 import regex
 import peptacular.spans as sp
@@ -224,10 +224,28 @@ ALPHABET = 'KRPDEA'
 USER_RULES = ['(?<=K)', '(?=D)', '([KR])', '(K)(?!P)', 'K', '(?<=[KR])(?=[^P])', 'DE', '(?<=P)|(?=A)']
 
 
+def _digest_seqs(rec, seqs, tier, rule_sets, params):
+    for seq in seqs:
+        for rules in rule_sets:
+            # one parameter tuple per (seq, rules) chosen round-robin + a few fixed: keeps the quick tier < 1 min
+            chosen = [params[(zlib.crc32(repr((seq, rules)).encode()) + 7 * j) % len(params)] for j in range(2 if tier == 'quick' else 6)]
+            chosen += [(0, False, None, None, True), (1, True, None, None, True)]
+            for (mc, semi, mn, mx, complete) in chosen:
+                inp = dict(seq=seq, rules=rules, mc=mc, semi=semi, min_len=mn, max_len=mx, complete=complete)
+                rec.guarded('digest-span-set', inp, lambda: digest_case(inp), fk_digest)
+
+
+def _digest_worker(job):
+    seqs, tier, rule_sets, params = job
+    r = Recorder('w', '', '')
+    _digest_seqs(r, seqs, tier, rule_sets, params)
+    return r.state()
+
+
 def run_digest(rec, tier, seed):
     import random
     rnd = random.Random(seed)
-    L = 5 if tier == 'quick' else 7
+    L = 5 if tier == 'quick' else 6
     named = ['trypsin', 'trypsin/P', 'lys-c', 'lys-n', 'asp-n', 'glu-c', 'arg-c', 'proalanase', 'non-specific',
              'no-cleave', 'chymotrypsin', 'proteinase k']
     if tier != 'quick':
@@ -251,14 +269,13 @@ def run_digest(rec, tier, seed):
         long_ = [s for s in seqs if len(s) == 5]
         rnd.shuffle(long_)
         seqs = short + long_[:len(long_) // 6]
-    for seq in seqs:
-        for rules in rule_sets:
-            # one parameter tuple per (seq, rules) chosen round-robin + a few fixed: keeps the quick tier < 1 min
-            chosen = [params[(zlib.crc32(repr((seq, rules)).encode()) + 7 * j) % len(params)] for j in range(2 if tier == 'quick' else 6)]
-            chosen += [(0, False, None, None, True), (1, True, None, None, True)]
-            for (mc, semi, mn, mx, complete) in chosen:
-                inp = dict(seq=seq, rules=rules, mc=mc, semi=semi, min_len=mn, max_len=mx, complete=complete)
-                rec.guarded('digest-span-set', inp, lambda: digest_case(inp), fk_digest)
+    if tier == 'quick':
+        _digest_seqs(rec, seqs, tier, rule_sets, params)
+    else:
+        # thorough: the strings are dealt round-robin to worker processes (same cases as a serial run)
+        jobs = [(seqs[i::56], tier, rule_sets, params) for i in range(56)]
+        for st_ in run_parallel(_digest_worker, jobs):
+            rec.absorb(st_)
     # random longer proteins over all residues
     aa = 'ACDEFGHIKLMNPQRSTVWY'
     for _ in range(150 if tier == 'quick' else 3000):
@@ -339,7 +356,7 @@ def main():
                    'real span builder; every protein over {K,R,P,D,E,A} up to the stated length x rule sets x parameters '
                    'through the real digest(); non-trivial = distinct (clause, expected span set prefix)',
                    bound=('builders: n<=5 (quick) / n<=7 (thorough), mc<=3/4, min/max in {None,1,2,3,5}; digest: all proteins of '
-                          'length<=4 + 1/6 of length 5 (quick) / all of length<=7 (thorough) over {K,R,P,D,E,A}, '
+                          'length<=4 + 1/6 of length 5 (quick) / all of length<=6 (thorough) over {K,R,P,D,E,A}, '
                           '12/19 named proteases + 8 user regexes + 6 multi-rule sets; random proteins to length 60'))
     if a.only and a.model_input:
         import json
